@@ -148,6 +148,7 @@ Spec == Init /\ [][Next]_vars
 View == t
 
 Emit == EmitOn => PrintT(ToJson(last'))
+EmitStateInv == PrintT(ToJson([state |-> StateJson(t)]))   \* listed as INVARIANT to print every distinct state once
 
 ----------------------------------------------------------------------------
 (* properties checked on the specification *)
